@@ -246,10 +246,15 @@ class Rig:
         }
         threads.deferToThread = self._defer
         reactor.callLater = self.clock.callLater
-        state.RollbackImporter = _Importer
+        # the real RollbackImporter wraps builtins.__import__; restored in
+        # close()
+        import builtins
+
+        self._saved['import'] = builtins.__import__
         state.time = _Time(self._saved['time'])
         dawgie.context._rev = self._next_rev
-        tsubmit.already_applied = lambda c, r: False
+        self.already_applied = False
+        tsubmit.already_applied = lambda c, r: self.already_applied
         self.automatic_ok = True
         tsubmit.automatic = self._automatic
         tsubmit.mail_out = lambda *a, **k: None
@@ -350,6 +355,21 @@ class Rig:
             self.errors.append((step.name + ':callback', f.value))
         return True
 
+    def new_revision(self):
+        '''the AE gains a module and an import of it: what a submitted
+        changeset looks like to the next reload'''
+        import importlib
+
+        self.extra = getattr(self, 'extra', 0) + 1
+        name = f'extra_{self.extra}'
+        pkg = os.path.join(self.eng.root, self.eng.base, 'p')
+        with open(os.path.join(pkg, name + '.py'), 'wt',
+                  encoding='utf-8') as f:
+            f.write(f'VALUE = {self.extra}\n')
+        with open(os.path.join(pkg, 'bot.py'), 'at', encoding='utf-8') as f:
+            f.write(f'\nimport {self.eng.base}.p.{name}\n')
+        importlib.invalidate_caches()
+
     def work(self, target='T1'):
         '''one real execution of algorithm p.A (worker.Context.run in this
         process): stores a value and the run's metrics, so that introspection
@@ -400,7 +420,9 @@ class Rig:
         s = self._saved
         threads.deferToThread = s['defer']
         reactor.callLater = s['callLater']
-        self.state_mod.RollbackImporter = s['importer']
+        import builtins
+
+        builtins.__import__ = s['import']
         self.state_mod.time = s['time']
         dawgie.context._rev = s['rev']
         tsubmit.already_applied = s['applied']
